@@ -328,6 +328,29 @@ def _multipoint_job(k):
     single.run()
     for kk, e in _cmp(p0, _key_outputs(single), 1e-9):
         bad.append(("multipoint:differs_from_single_point", {"var": kk, "err": e}))
+    # the multipoint objective is the sum of the points' drag coefficients - also after the same Problem has been set up again
+    # with another supported solver (a solver study on one script), which must not change any output either
+    def cdsum():
+        return float(np.ravel(m.prob.get_val("multi_CD.CD"))[0]), float(sum(np.ravel(m.prob.get_val(pn + ".CD"))[0] for pn in m.points))
+
+    got, want = cdsum()
+    if not (abs(got - want) <= 1e-13 * abs(want)):
+        bad.append(("multipoint:multi_CD_is_not_the_sum", {"got": got, "want": want}))
+    ref_all = _key_outputs(m, tuple(m.points))
+    for nl in ("NLBGS", "Newton"):
+        m._nl = nl
+        m.resetup()
+        for name, val in (("alpha_1", a1 + 2.0), ("v_1", 150.0), ("load_factor_1", -1.0), ("rho_1", 0.9)):
+            m.prob.set_val(name, val)
+        try:
+            m.run()
+        except om.AnalysisError:
+            continue  # inconclusive (see the solver job)
+        got, want = cdsum()
+        if not (abs(got - want) <= 1e-13 * abs(want)):
+            bad.append(("multipoint:multi_CD_is_not_the_sum:after_resetup", {"got": got, "want": want, "solver": nl}))
+        for kk, e in _cmp(_key_outputs(m, tuple(m.points)), ref_all, 1e-8):
+            bad.append(("multipoint:resetup_with_solver:%s" % nl, {"var": kk, "err": e}))
     return {"k": k, "bad": bad, "case": {"fem": s["fem"]}}
 
 
